@@ -368,6 +368,13 @@ fn judge_inner(files: &[(String, String)], wasm: bool, family: &str, w: &mut Wor
 					});
 					continue;
 				}
+				// LangRef: "The calling convention of the call must match the calling convention
+				// of the target function, or else the behavior is undefined" - not a verifier rule
+				if let Some(problem) = call_convention_mismatch(ir)
+				{
+					ok = false;
+					w.result.violation(&format!("call-with-another-calling-convention-than-its-callee:{}", if which.starts_with("linked") { "linked" } else { "module" }), size, &desc, || format!("{which} ({family}): {problem}\n{ir}"));
+				}
 				if quick && h % 4 != 0
 				{
 					continue;
@@ -471,4 +478,75 @@ fn judge_inner(files: &[(String, String)], wasm: bool, family: &str, w: &mut Wor
 		CaseOutcome::Crashed { .. } =>
 		{}
 	}
+}
+
+const CALLING_CONVENTIONS: [&str; 11] = ["ccc", "fastcc", "coldcc", "tailcc", "swiftcc", "swifttailcc", "webkit_jscc", "anyregcc", "preserve_mostcc", "preserve_allcc", "ghccc"];
+
+/// The first direct call whose calling convention differs from that of the function it names
+/// (as defined or declared in the same module), described; None if all agree.
+pub fn call_convention_mismatch(ir: &str) -> Option<String>
+{
+	let convention_in = |words: &str| -> String {
+		let mut it = words.split_whitespace().peekable();
+		while let Some(wd) = it.next()
+		{
+			if CALLING_CONVENTIONS.contains(&wd)
+			{
+				return wd.to_string();
+			}
+			if wd == "cc"
+			{
+				if let Some(n) = it.peek()
+				{
+					return format!("cc {n}");
+				}
+			}
+		}
+		"ccc".to_string()
+	};
+	let mut functions: std::collections::HashMap<String, String> = std::collections::HashMap::new();
+	for line in ir.lines()
+	{
+		if line.starts_with("define ") || line.starts_with("declare ")
+		{
+			if let Some(at) = line.find('@')
+			{
+				let name: String = line[at + 1..].chars().take_while(|c| *c != '(').collect();
+				functions.insert(name, convention_in(&line[..at]));
+			}
+		}
+	}
+	for line in ir.lines()
+	{
+		let Some(pos) = line.find("call ").or_else(|| line.find("invoke "))
+		else
+		{
+			continue;
+		};
+		if line.starts_with("define") || line.starts_with("declare")
+		{
+			continue;
+		}
+		let rest = &line[pos..];
+		let Some(at) = rest.find('@')
+		else
+		{
+			continue;
+		};
+		let name: String = rest[at + 1..].chars().take_while(|c| *c != '(' && !c.is_whitespace() && *c != ',').collect();
+		// only direct calls: the callee directly precedes the argument list
+		if !rest[at + 1 + name.len()..].starts_with('(')
+		{
+			continue;
+		}
+		if let Some(callee) = functions.get(&name)
+		{
+			let used = convention_in(&rest[..at]);
+			if &used != callee
+			{
+				return Some(format!("`{}` calls @{name} with convention {used}, but @{name} has convention {callee}", line.trim()));
+			}
+		}
+	}
+	None
 }
